@@ -28,11 +28,17 @@ type solverSpec struct {
 }
 
 var solvers = []solverSpec{
-	{"z3-new", func(f string, t int) []string { return []string{"z3-new", fmt.Sprintf("-T:%d", t), f} }},
+	// E-matching only (Boogie-style): far more stable on VC-shaped queries than MBQI
+	{"z3-new", func(f string, t int) []string {
+		return []string{"z3-new", "smt.mbqi=false", "auto_config=false", fmt.Sprintf("-T:%d", t), f}
+	}},
+	{"z3-new-mbqi", func(f string, t int) []string { return []string{"z3-new", fmt.Sprintf("-T:%d", t), f} }},
 	{"cvc5", func(f string, t int) []string {
 		return []string{"cvc5", "--lang=smt2", fmt.Sprintf("--tlimit=%d", t*1000), "--produce-models", f}
 	}},
-	{"z3", func(f string, t int) []string { return []string{"z3", fmt.Sprintf("-T:%d", t), f} }},
+	{"z3", func(f string, t int) []string {
+		return []string{"z3", "smt.mbqi=false", "auto_config=false", fmt.Sprintf("-T:%d", t), f}
+	}},
 }
 
 func runSolver(ctx context.Context, s solverSpec, file string, timeoutS int) (string, string) {
@@ -107,9 +113,9 @@ func solveOne(e *Enc, o *Obl, opts solveOpts, idx int) *SolveResult {
 	}
 	if o.Cover {
 		// reachability covers: a short budget; "unknown" is accepted (quantified sat is hard)
-		ans, raw := runSolver(ctx, solvers[0], file, 2)
-		res.Answers[solvers[0].name] = ans
-		res.Solver, res.Raw = solvers[0].name, raw
+		ans, raw := runSolver(ctx, solvers[1], file, 2)
+		res.Answers[solvers[1].name] = ans
+		res.Solver, res.Raw = solvers[1].name, raw
 		res.Seconds = time.Since(start).Seconds()
 		switch ans {
 		case "sat":
@@ -121,41 +127,46 @@ func solveOne(e *Enc, o *Obl, opts solveOpts, idx int) *SolveResult {
 		}
 		return res
 	}
-	ans, raw := runSolver(ctx, solvers[0], file, quick)
-	res.Answers[solvers[0].name] = ans
 	decided := func(a string) bool { return a == "sat" || a == "unsat" }
-	if decided(ans) {
-		res.Solver, res.Raw = solvers[0].name, raw
-	} else {
-		// stage 2: race all solvers with the full budget
-		type r struct {
-			name, ans, raw string
-		}
-		ch := make(chan r, len(solvers))
-		for _, s := range solvers {
+	type r struct {
+		name, ans, raw string
+	}
+	ans := "unknown"
+	race := func(set []solverSpec, budget int) {
+		rctx, rcancel := context.WithCancel(ctx)
+		defer rcancel()
+		ch := make(chan r, len(set))
+		for _, s := range set {
 			go func(s solverSpec) {
-				a, t := runSolver(ctx, s, file, opts.timeoutS)
+				a, t := runSolver(rctx, s, file, budget)
 				ch <- r{s.name, a, t}
 			}(s)
 		}
-		for range solvers {
+		for range set {
 			x := <-ch
 			res.Answers[x.name] = x.ans
 			if decided(x.ans) && res.Solver == "" {
 				res.Solver, res.Raw = x.name, x.raw
 				ans = x.ans
 				if !opts.crossCheck {
-					cancel()
-					break
+					rcancel()
+					return
 				}
-			} else if decided(x.ans) && x.ans != ans {
+			} else if decided(x.ans) && res.Solver != "" && x.ans != ans {
 				res.Raw += "\nSOLVER DISAGREEMENT: " + x.name + " says " + x.ans
 				ans = "unknown"
+				res.Solver = "disagreement"
 			}
 		}
-		if res.Solver == "" {
-			ans = "unknown"
-		}
+	}
+	// stage 1: the two z3-new configurations (E-matching only / default) with a short budget
+	race(solvers[:2], quick)
+	if res.Solver == "" {
+		// stage 2: everything with the full budget
+		race(solvers, opts.timeoutS)
+	}
+	if res.Solver == "" || res.Solver == "disagreement" {
+		ans = "unknown"
 	}
 	res.Seconds = time.Since(start).Seconds()
 	switch {
@@ -186,7 +197,7 @@ func solveOne(e *Enc, o *Obl, opts solveOpts, idx int) *SolveResult {
 			gb.WriteString(l + "\n")
 		}
 		os.WriteFile(gfile, []byte(gb.String()), 0o644)
-		ga, graw := runSolver(context.Background(), solvers[0], gfile, 3)
+		ga, graw := runSolver(context.Background(), solvers[1], gfile, 3)
 		if !opts.keep {
 			os.Remove(gfile)
 		}
